@@ -291,6 +291,7 @@ FRAGS = ["*e*", "**s**", "_u_", "~~d~~", "`c`", "`` a`b ``", "[l](u)", "[l](u \"
          "<!-- c -->", "<http://a.b>", "<m@n.o>", "x", "y z", "é", "1", "a_b_c", "\"q\"", "'s'", "--", "...", "(c)", "http://x.y/z", "www.a.bc", "[r]", "!", "(", ")", "[", "]",
          "*", "_", "`", "~", "|", "#", "\\", "&", "<", ">", "+", "=", ":",
          # characters that str.splitlines()/str.isspace() single out but Markdown treats as ordinary text
+         "a" + "[" * 19 + "foo](/u)", "b" + "![" * 20 + "i](s)" + "](s)" * 19, "c " + "[" * 99 + "z](/v)", "d" + "[" * 18 + "w](/q)" + "](/q)" * 17,
          "a\x0cb", "x\u2028y", "p\x85q", "\x1c", "m\x0bn", "\u2029", "\x1e", "\u200b", "\xa0", "\u3000z"]
 
 
